@@ -24,6 +24,7 @@ def main():
         if not any(ch.tag in ("failure", "error", "skipped") for ch in tc):
             passed.add(name)
     os.unlink(junit)
+    subprocess.run(["git", "-C", "/repo", "checkout", "--", "tests"], capture_output=True)  # tests rewrite tracked fixtures
     selected = stable & seen if sys.argv[1:] else stable
     missing = sorted(selected - passed)
     newpass = sorted(passed - stable)
